@@ -52,14 +52,21 @@ def solve_campaign(ctx, n_systems, gen_kw=None, case_kw=None, filt=None, variant
             continue
         for _ in range(variants):
             g = gen.Gen(rng, **(gen_kw or {}))
-            s = drv_solve.build_system(st, g, rng)
+            try:
+                s = drv_solve.build_system(st, g, rng)
+            except drv_solve.BuildFailure as bf:
+                cases.append(bf.case(len(cases)))
+                continue
             kw = dict(case_kw(rng, s) if case_kw else {})
             rr = kw.pop("rail_rep", False)
             c = drv_solve.solve_case(s, len(cases), rail_rep=rr, **kw)
+            c["want"], c["haswant"] = drv_solve.want_of(st[-1]["sys"]), True
             cases.append(c)
             structs.add(struct_digest(c["st"]))
             if post:
                 post(s, cases, rng)
+            if rng.random() < 0.35:
+                edit_and_resolve(s, cases, rng, rr, kw)
         n += 1
     if matrix:
         import matrix as _mx
@@ -91,6 +98,51 @@ def solve_campaign(ctx, n_systems, gen_kw=None, case_kw=None, filt=None, variant
     res.samples = [{"components": [(c["name"], c["cls"], c["par"]) for c in cs["st"]["comps"]],
                     "phases": [p["name"] for p in cs["st"]["sysph"]], "outcome": cs["outcome"]} for cs in cases[:3]]
     return res, cases
+
+
+def edit_and_resolve(s, cases, rng, rail_rep, kw):
+    """solve - edit - solve: after the system has been solved once, move a leaf to another parent (del_comp +
+    add_comp, re-using the freed node index) or replace an interior component by an equal one (change_comp), and
+    solve again; the new table is held to the projected state after the edit like any other"""
+    from model import build
+    from project import project
+    from rebuild import desc_of
+    st = project(s)
+    comps = {c["name"]: c for c in st["comps"]}
+    kids = {}
+    for c in st["comps"]:
+        for p in c["par"]:
+            kids.setdefault(p, []).append(c["name"])
+    leaves = [n for n, c in comps.items() if c["par"] and n not in kids and c["cls"] != "PMux"]
+    hosts = [n for n, c in comps.items() if c["cls"] not in ("PLoad", "ILoad", "RLoad")]
+    try:
+        if leaves and rng.random() < 0.7:
+            n = rng.choice(leaves)
+            cand = [h for h in hosts if h != n and h not in comps[n]["par"]]
+            if not cand:
+                return
+            h = rng.choice(cand)
+            s.del_comp(n)
+            s.add_comp(h, comp=build(desc_of(comps[n])), group=comps[n]["group"], rail=comps[n]["rail"])
+            what = "moved %s below %s" % (n, h)
+        else:
+            inner = [n for n, c in comps.items() if n in kids]
+            if not inner:
+                return
+            n = rng.choice(inner)
+            s.change_comp(n, comp=build(desc_of(comps[n])), group=comps[n]["group"], rail=comps[n]["rail"])
+            pc = comps[n]["pconf"]
+            if pc["t"] != "none":      # change_comp resets the phase configuration of the replaced component
+                from rebuild import conf_of
+                s.set_comp_phases(n, conf_of(pc))
+            what = "replaced %s by an equal component" % n
+    except Exception as e:
+        c = drv_solve.BuildFailure(s, "edit", {}, e).case(len(cases))
+        cases.append(c)
+        return
+    c = drv_solve.solve_case(s, len(cases), rail_rep=rail_rep, **kw)
+    c["after_edit"] = what
+    cases.append(c)
 
 
 def fixed_cases(cases, builder_list):
